@@ -7,6 +7,8 @@ RULE = ("valid streams of every method (sequential / Edgebreaker standard+valenc
         "DecodeBufferToGeometry / GetEncodedGeometryType / skip-transform, then truncations, byte / bit / 32-bit / varint patterns, multi-site, "
         "version and type rewrites, splices, insertions/deletions; each decode in a forked worker under ASan+UBSan with a watchdog; input "
         "buffer compared before/after; distinct = distinct (bytes, entry point)")
+# semantic stream mutations of Edgebreaker streams through the public decoder (shared search sub-check: its lines are tagged per property)
+SUBCHECKS = ["HOSTILE"]
 def classify(line):
     if line.startswith("! C18-kdtree-decoder-stacks-quadratic-in-declared-dimension"):
         return "kdtree-decoder-stacks-quadratic-in-declared-dimension"
